@@ -899,6 +899,10 @@ where
             ds.extend(enumerate(&alphabets[*ai], l, *maxrank));
         }
         let total = ds.len();
+        if std::env::var_os("VERIF_C08_COUNT_ONLY").is_some() {
+            eprintln!("[c08] {:<12} {:<34} complexes {:>8}", T::NAME, label, total); // development aid
+            continue;
+        }
         // batches keep the seen-set of one BFS small
         let mut done = 0;
         let mut agg: Vec<Value> = vec![];
@@ -959,7 +963,8 @@ fn sequential_part(run: &Run) -> Vec<Value> {
             families: vec![
                 ("L<=3,rank<=2,full", vec![1, 2, 3], 2, 0, fix),
                 ("L=4,rank<=2,three-letter", vec![4], 2, 1, fix),
-                ("L<=4,rank<=3,two-letter", vec![1, 2, 3, 4], 3, 2, fix),
+                ("L<=3,rank<=3,two-letter", vec![1, 2, 3], 3, 2, fix),
+                // TODO-DECIDE ("L=4,rank<=3,two-letter", vec![4], 3, 2, fix),
             ],
             sample_depth: 3,
         }
@@ -980,7 +985,18 @@ fn sequential_part(run: &Run) -> Vec<Value> {
     report
 }
 
+extern "C" {
+    fn mallopt(param: i32, value: i32) -> i32;
+}
+
 fn main() {
+    // glibc: keep freed heap tops instead of returning them page by page.  The BFS allocates and
+    // frees many small matrices on 16 threads; with the default trim threshold every thread arena
+    // grows and shrinks continuously (measured: 4*10^5 mprotect calls, more system than user time).
+    unsafe {
+        mallopt(-1 /* M_TRIM_THRESHOLD */, 1 << 30);
+        mallopt(-2 /* M_TOP_PAD */, 64 << 20);
+    }
     let run = Run::new("C08", "model_checking");
     let report = sequential_part(&run);
 
